@@ -33,5 +33,14 @@ Record facts : Set := {
   f_cron_window_inclusive : bool;   (* 0 <= diff <= window *)
   f_cron_min_interval_strict : bool; (* refused when since_last < min_interval *)
   (* base_trigger.py:_should_trigger_cron_condition *)
-  f_cron_first_poll_checked : bool  (* is_satisfied_by is also consulted when no last execution is stored *)
+  f_cron_first_poll_checked : bool; (* is_satisfied_by is also consulted when no last execution is stored *)
+  f_cron_storage_read_always : bool; (* every poll that passes the cache short cut reads the stored last execution and
+                                        hands exactly that value to the compare-and-swap (the runner-local cache is never
+                                        trusted in its place) *)
+  (* get_conditions_sourced_from_task in both stores *)
+  f_mem_source_filter_exact : bool;    (* cond.context_type == context_type: a result / exception report never reaches *)
+  f_sqlite_source_filter_exact : bool; (* the status conditions although their contexts subclass StatusContext *)
+  (* get_valid_conditions in both stores *)
+  f_mem_pending_read_complete : bool;    (* the loop iteration sees every pending valid condition *)
+  f_sqlite_pending_read_complete : bool  (* (no WHERE / LIMIT / partial fetch) *)
 }.
